@@ -4,3 +4,4 @@ import MC.Props.C12
 import MC.Props.C11
 import MC.Props.C13
 import MC.Props.C19
+import MC.Props.C20
